@@ -97,6 +97,49 @@ func genBV2Corpus(r *Rng, n int, w *bufio.Writer) {
 			Ins:     []bvIn{{Conf: true, Asset: 0, Value: 1000}, {Conf: true, Asset: 1, Value: 7}},
 			Outs:    []bvOut{{Asset: 1, Value: 7, Blind: true, BlinderIdx: 1}, {Asset: 0, Value: 900, Blind: true}, {Asset: 0, Value: 100, Fee: true}},
 			Parties: []bvParty{{Ctor: 1, Own: []uint32{1, 0}, Outs: []uint32{1, 0}}}},
+		// three parties, explicit inputs only: two published scalars
+		&bvShape{Seed: 18,
+			Ins: []bvIn{{Conf: false, Asset: 0, Value: 1000}, {Conf: false, Asset: 0, Value: 50}, {Conf: false, Asset: 0, Value: 7}},
+			Outs: []bvOut{{Asset: 0, Value: 900, Blind: true}, {Asset: 0, Value: 50, Blind: true, BlinderIdx: 1},
+				{Asset: 0, Value: 7, Blind: true, BlinderIdx: 2}, {Asset: 0, Value: 100, Fee: true}},
+			Parties: []bvParty{{Ctor: 0, Own: []uint32{0, 1, 2}, Outs: []uint32{0}}, {Ctor: 0, Own: []uint32{0, 1, 2}, Outs: []uint32{1}},
+				{Ctor: 0, Own: []uint32{0, 1, 2}, Outs: []uint32{2}}}},
+		// four parties, every one owning a confidential input: three published scalars
+		&bvShape{Seed: 19,
+			Ins: []bvIn{{Conf: true, Asset: 0, Value: 1000}, {Conf: true, Asset: 1, Value: 50}, {Conf: true, Asset: 0, Value: 7}, {Conf: true, Asset: 2, Value: 3}},
+			Outs: []bvOut{{Asset: 0, Value: 900, Blind: true}, {Asset: 1, Value: 50, Blind: true, BlinderIdx: 1},
+				{Asset: 0, Value: 7, Blind: true, BlinderIdx: 2}, {Asset: 2, Value: 3, Blind: true, BlinderIdx: 3}, {Asset: 0, Value: 100, Fee: true}},
+			Parties: []bvParty{{Ctor: 0, Own: []uint32{2}, Outs: []uint32{2}}, {Ctor: 0, Own: []uint32{0}, Outs: []uint32{0}},
+				{Ctor: 0, Own: []uint32{3}, Outs: []uint32{3}}, {Ctor: 0, Own: []uint32{1}, Outs: []uint32{1}}}},
 	}
 	bvGenParallel(len(shapes), func(i int) string { return bvV2CaseLine(shapes[i]) }, w)
+}
+
+// hand-written boundary scenarios of the v0 blinder (corpus/bv0.txt, `impl gen bv0corpus 0 0`)
+func init() { gens["bv0corpus"] = genBV0Corpus }
+
+func genBV0Corpus(r *Rng, n int, w *bufio.Writer) {
+	shapes := []*bvShape{
+		// blinded reissuance (input 1 spends the token) of an asset that input 2 spends as well
+		&bvShape{Seed: 31, IssKeys: true,
+			Ins:  []bvIn{{Conf: false, Asset: 0, Value: 1000}, {Conf: true, Asset: 201, Value: 1, Iss: 2, IssValue: 40}, {Conf: true, Asset: 101, Value: 60}},
+			Outs: []bvOut{{Asset: 0, Value: 900, Blind: true}, {Asset: 101, Value: 100, Blind: true}, {Asset: 201, Value: 1, Blind: true}, {Asset: 0, Value: 100, Fee: true}},
+			Sel:  []int{0, 1, 2}},
+		// the same with the spent UTXO of the asset placed before the reissuance input
+		&bvShape{Seed: 32, IssKeys: true,
+			Ins:  []bvIn{{Conf: true, Asset: 0, Value: 1000}, {Conf: true, Asset: 102, Value: 60}, {Conf: true, Asset: 202, Value: 1, Iss: 2, IssValue: 40}},
+			Outs: []bvOut{{Asset: 102, Value: 100, Blind: true}, {Asset: 0, Value: 900, Blind: true}, {Asset: 202, Value: 1, Blind: true}, {Asset: 0, Value: 100, Fee: true}},
+			Sel:  []int{0, 1, 2}},
+		// blinded new issuance with token on a middle input
+		&bvShape{Seed: 33, IssKeys: true,
+			Ins:  []bvIn{{Conf: true, Asset: 0, Value: 1000}, {Conf: false, Asset: 1, Value: 5, Iss: 1, IssValue: 70, IssToken: 2}},
+			Outs: []bvOut{{Asset: 0, Value: 900, Blind: true}, {Asset: 1, Value: 5, Blind: true}, {Asset: 101, Value: 70, Blind: true}, {Asset: 201, Value: 2, Blind: true}, {Asset: 0, Value: 100, Fee: true}},
+			Sel:  []int{0, 1, 2, 3}},
+		// non-contiguous selection
+		&bvShape{Seed: 34,
+			Ins:  []bvIn{{Conf: true, Asset: 0, Value: 1000}},
+			Outs: []bvOut{{Asset: 0, Value: 300}, {Asset: 0, Value: 600, Blind: true}, {Asset: 0, Value: 100, Fee: true}},
+			Sel:  []int{1}},
+	}
+	bvGenParallel(len(shapes), func(i int) string { return bvV0CaseLine(shapes[i]) }, w)
 }
